@@ -94,6 +94,10 @@ Conservation(w, h) ==
   \A k \in UNION {DOMAIN w.acct[a].esdt : a \in Accts(w)} \cup ItemKeys(items) \cup DOMAIN h.supply : TotalI(w, items, k) = SupplyOf(h, k)
 NoNegative(w) == \A a \in Accts(w) : \A k \in DOMAIN w.acct[a].esdt : w.acct[a].esdt[k].val >= 0
 
+\* tokens the driver deliberately gives two creators (outside the single-creator discipline, to reach "same token and nonce, different
+\* hash") are exempt from the clauses that assume the discipline
+IsDupTok(t) == "dup" \in DOMAIN cfg /\ t \in Range(cfg.dup)
+
 \* C15 well-formedness
 NoDup(s) == \A i, j \in DOMAIN s : i # j => s[i] # s[j]
 EntryWF(k, e) ==
@@ -107,14 +111,14 @@ WellFormed(w, h) ==
     /\ ac.bad = <<>>
     /\ \A k \in DOMAIN ac.esdt : EntryWF(k, ac.esdt[k])
     /\ \A t \in DOMAIN ac.roles : NoDup(ac.roles[t]) /\ ac.roles[t] # <<>>
-    /\ \A t \in DOMAIN ac.roles : RoleCreate \in Range(ac.roles[t]) => CtrOf(ac, t) >= MaxN(h, t)
+    /\ \A t \in DOMAIN ac.roles : (RoleCreate \in Range(ac.roles[t]) /\ ~IsDupTok(t)) => CtrOf(ac, t) >= MaxN(h, t)
     /\ \A t \in DOMAIN ac.ctr : ac.ctr[t] > 0
 \* C07: the create-role holder's counter covers every nonce ever issued; nobody else keeps a counter
 CounterWithRole(w, h) ==
   \A a \in Accts(w) :
     LET ac == w.acct[a] IN
-    /\ \A t \in DOMAIN ac.roles : RoleCreate \in Range(ac.roles[t]) => CtrOf(ac, t) >= MaxN(h, t)
-    /\ \A t \in DOMAIN ac.ctr : RoleCreate \in Range(RolesOf(ac, t))
+    /\ \A t \in DOMAIN ac.roles : (RoleCreate \in Range(ac.roles[t]) /\ ~IsDupTok(t)) => CtrOf(ac, t) >= MaxN(h, t)
+    /\ \A t \in DOMAIN ac.ctr : IsDupTok(t) \/ RoleCreate \in Range(RolesOf(ac, t))
 SysClean(w) == \A s \in DOMAIN w.sysx : w.sysx[s] = <<>>
 
 =============================================================================
